@@ -5,6 +5,7 @@ package c12
 
 import (
 	"context"
+	"encoding/binary"
 	"encoding/hex"
 	"fmt"
 	"math/rand/v2"
@@ -192,11 +193,163 @@ func TestC12(t *testing.T) {
 
 				rng := rand.New(rand.NewPCG(uint64(c.Seed)+12, uint64(k)))
 				synctest.Test(t, func(*testing.T) { filteredResume(c, rng, k) })
+				synctest.Test(t, func(*testing.T) { forgedBeforeStart(c, rand.New(rand.NewPCG(uint64(c.Seed)+13, uint64(k))), k) })
 			}()
 		}
 
 		wg.Wait()
 	})
+}
+
+// forgedBeforeStart: on a young log (far fewer events than the history holds) bookmarks with the valid cookie and a position before
+// the start of the log are presented to every watch kind: below -1 they are malformed for everybody; -1 ("before the first event", what a
+// bootstrap bookmark over an empty log carries) is below the first position a single-resource watch can resume from, and for kind
+// watches it may only be accepted as "everything from the first event".
+func forgedBeforeStart(c *vk.C, rng *rand.Rand, k int) {
+	ctx, cancel := context.WithCancel(context.Background())
+	defer func() {
+		cancel()
+		synctest.Wait()
+	}()
+
+	st := inmem.NewStateWithOptions(inmem.WithHistoryInitialCapacity(100), inmem.WithHistoryMaxCapacity(100), inmem.WithHistoryGap(5))("ns")
+	kind := resource.NewMetadata("ns", res.TypeA, "", resource.VersionUndefined)
+
+	// a bookmark with the right cookie: the bootstrap bookmark of the (still empty) log, or the bookmark of a delivered event
+	var valid state.Bookmark
+
+	writes := rng.IntN(12)
+	fromEmpty := k%2 == 0
+
+	grab := func() {
+		wctx, wcancel := context.WithCancel(ctx)
+		defer wcancel()
+
+		ch := make(chan state.Event, 64)
+		if err := st.WatchKind(wctx, kind, ch, state.WithBootstrapContents(true)); err != nil {
+			return
+		}
+
+		synctest.Wait()
+
+		for more := true; more; {
+			select {
+			case ev := <-ch:
+				if len(ev.Bookmark) > 0 {
+					valid = append(state.Bookmark(nil), ev.Bookmark...)
+				}
+			default:
+				more = false
+			}
+		}
+	}
+
+	if fromEmpty {
+		grab()
+	}
+
+	r := res.New("ns", res.TypeA, "x")
+
+	for i := 0; i < writes; i++ {
+		if i == 0 {
+			_ = st.Create(ctx, r)
+		} else {
+			res.SpecOf(r).Token = fmt.Sprint("y", i)
+			_ = st.Update(ctx, r)
+		}
+	}
+
+	if !fromEmpty || valid == nil {
+		grab()
+	}
+
+	if len(valid) < 8 {
+		return
+	}
+
+	try := func(mode string, bm state.Bookmark) (int, error) {
+		wctx, wcancel := context.WithCancel(ctx)
+		defer wcancel()
+
+		var (
+			ch  = make(chan state.Event, 256)
+			agg = make(chan []state.Event, 256)
+			err error
+		)
+
+		switch mode {
+		case "single":
+			err = st.Watch(wctx, r.Metadata(), ch, state.WithStartFromBookmark(bm))
+		case "kind":
+			err = st.WatchKind(wctx, kind, ch, state.WithKindStartFromBookmark(bm))
+		default:
+			err = st.WatchKindAggregated(wctx, kind, agg, state.WithKindStartFromBookmark(bm))
+		}
+
+		if err != nil {
+			return 0, err
+		}
+
+		synctest.Wait()
+
+		n := 0
+
+		for more := true; more; {
+			select {
+			case <-ch:
+				n++
+			case evs := <-agg:
+				n += len(evs)
+			default:
+				more = false
+			}
+		}
+
+		return n, nil
+	}
+
+	// the unmodified bootstrap bookmark of an empty log is such a position too (it is -1 by meaning): single-resource watches cannot start there
+	positions := []int64{-1, -2, -3, -10, -50, -88}
+
+	for _, pos := range positions {
+		bm := append(state.Bookmark(nil), valid...)
+		binary.BigEndian.PutUint64(bm[len(bm)-8:], uint64(pos))
+
+		for _, mode := range []string{"single", "kind", "agg"} {
+			var (
+				n   int
+				err error
+			)
+
+			p, stack := vk.Try(func() { n, err = try(mode, bm) })
+
+			c.Count("forged_before_start_bookmarks", 1)
+
+			detail := map[string]any{"mode": "forged-before-start", "watch": mode, "position": pos, "events_in_log": writes, "delivered": n, "err": fmt.Sprint(err)}
+
+			switch {
+			case p != nil:
+				detail["panic"], detail["stack"] = fmt.Sprint(p), stack
+				c.Violation("watch-panicked-on-forged-bookmark", detail)
+
+				return
+			case err != nil && !state.IsInvalidWatchBookmarkError(err):
+				c.Violation("bookmark-reject-wrong-class", detail)
+
+				return
+			case err == nil && (pos < -1 || mode == "single"):
+				c.Violation("garbage-bookmark-accepted", detail)
+
+				return
+			case err == nil && n != writes:
+				c.Violation("stream-gap", detail) // accepted as "from the beginning" but not everything came
+
+				return
+			}
+		}
+	}
+
+	c.Case(vk.Hash("forged", k, writes, fromEmpty), true)
 }
 
 type fev struct {
